@@ -26,16 +26,21 @@ func HarnessDeployWaitsForActiveTasks() {
 		silent
 	)
 	outcome := []int{vrt.IntRange("outcome", active, silent), vrt.IntRange("outcome", active, silent)}
+	secondCritical := vrt.Bool("second.critical")
+	if !secondCritical {
+		vrt.Assume(outcome[1] != undeployable) // (the task manager only declares critical roles undeployable)
+	}
 	rec := &fenvRec{}
 	env := fenvNew(&fenvConf{}, rec, "STANDBY", nil)
 	t1 := workflow.VerifTaskRole("t1", true, nil)
-	t2 := workflow.VerifTaskRole("t2", true, nil)
+	t2 := workflow.VerifTaskRole("t2", secondCritical, nil)
 	for _, r := range []workflow.Role{t1, t2} {
 		workflow.VerifSetStatus(r, task.INACTIVE)
 	}
 	env.workflow = workflow.NewAggregatorRole("root", []workflow.Role{t1, t2})
 	workflow.LinkChildrenToParents(env.workflow)
 	workflow.VerifAttach(env.workflow, env.wfAdapter)
+	env.workflow.GetVars().Set("deploy_timeout", "400ms") // (keeps native replays short; under the interpreter the timeout fires when nothing else can happen)
 	tm := &task.Manager{MessageChannel: make(chan *task.TaskmanMessage, 4)}
 	go func() {
 		for range tm.MessageChannel {
@@ -58,6 +63,8 @@ func HarnessDeployWaitsForActiveTasks() {
 	if outcome[0] == active && outcome[1] == active {
 		vrt.Assert(err == nil && env.CurrentState() == "DEPLOYED", "deploy-succeeds-when-every-task-became-active-in-time")
 		vrt.Reach("deployed")
+	} else if outcome[0] == active && !secondCritical {
+		vrt.Assert(err == nil && env.CurrentState() == "DEPLOYED", "a-non-critical-task-that-did-not-become-active-does-not-fail-the-deployment")
 	} else {
 		vrt.Assert(err != nil && env.CurrentState() == "STANDBY", "deploy-fails-when-a-critical-task-did-not-become-active")
 		vrt.Reach("failed")
